@@ -38,10 +38,10 @@ type Loaded struct {
 }
 
 var specHelperNames = map[string]bool{
-	"old": true, "athead": true, "held": true, "implies": true, "iff": true, "forall": true, "exists": true, "forall2": true,
+	"old": true, "athead": true, "held": true, "implies": true, "iff": true, "forall": true, "exists": true, "forall2": true, "forallk": true,
 	"Z": true, "result": true, "panics": true, "fresh": true, "strdigits": true, "parsedec": true,
 	"substr": true, "imin": true, "imax": true, "lower": true, "isnil": true, "typeis": true,
-	"sliceeq": true, "sameslice": true, "samemap": true, "psum": true, "let": true, "ite": true, "alloc": true,
+	"sliceeq": true, "sameslice": true, "samemap": true, "visited": true, "psum": true, "let": true, "ite": true, "alloc": true,
 	"str": true, "bytesOf": true, "unchanged": true, "trunc": true,
 }
 
@@ -55,6 +55,7 @@ func implies(a, b bool) bool            { return !a || b }
 func iff(a, b bool) bool                { return a == b }
 func forall(f func(i int) bool) bool    { return f(0) }
 func exists(f func(i int) bool) bool    { return f(0) }
+func forallk[K any](f func(k K) bool) bool { var z K; return f(z) }
 func forall2(f func(i, j int) bool) bool { return f(0, 0) }
 func strdigits(s string) bool           { return s != "" }
 func parsedec(s string) Z               { return Z(len(s)) }
@@ -65,6 +66,7 @@ func ite[T any](c bool, a, b T) T       { if c { return a }; return b }
 func fresh[T any](p T) bool             { return true }
 func sameslice[T any](a, b []T) bool    { return len(a) == len(b) }
 func samemap[K comparable, V any](a, b map[K]V) bool { return len(a) == len(b) }
+func visited[K comparable](k K) bool { return true }
 func sliceeq[T comparable](a, b []T) bool { return len(a) == len(b) }
 func str(b []byte) string               { return string(b) }
 func typeis[T any](v any) bool          { _, ok := v.(T); return ok }
@@ -650,6 +652,7 @@ func generateSpecFile(p *packages.Package, pc *PkgContracts) (string, error) {
 			if d := fc.LoopDec[k]; d != nil {
 				cl = append(cl, d)
 			}
+			cl = append(cl, fc.LoopExit[k]...)
 			for _, c := range cl {
 				ps, err := g.clauseParams(c.Text, sc, lb.Lbrace, sig, fmt.Sprintf("%s:%d", pc.File, c.Line))
 				if err != nil {
